@@ -33,7 +33,8 @@ impl Wake for Flag {
 }
 
 /// case: 16 1 order i_ms t_ms events..   order 0: interval then timeout; 1: timeout then interval
-/// event: 0 ms  = advance the clock by ms and run the task;  1 = a Pong arrives;  2 = poll a pending get_datagram
+/// event: 0 ms  = advance the clock by ms and run the task;  1 = a Pong arrives;  2 = poll a pending get_datagram;
+/// 3 ms = advance the clock by ms, a Pong arrives, and only then the task runs (tick and unread Pong in one poll)
 /// output per event: npings_emitted closed(0/1) done_code(0 none, 1 Ok, 100+e) [dgram result for event 2]
 fn run_case(c: &[u64]) -> Vec<u64> {
     if c.len() < 3 {
@@ -106,6 +107,22 @@ fn run_case(c: &[u64]) -> Vec<u64> {
                     flag.0.store(true, std::sync::atomic::Ordering::SeqCst);
                     settle(&mut task, &mut o);
                 }
+                3 => {
+                    // the clock reaches `ms` later AND a Pong has arrived before the task runs again:
+                    // one poll of the task sees both the tick and the unread Pong
+                    let ms = events.get(k + 1).copied().unwrap_or(0);
+                    k += 2;
+                    tokio::time::advance(Duration::from_millis(ms)).await;
+                    {
+                        let mut s = ws.lock().unwrap();
+                        s.inbox.push_back(Message::Pong);
+                        if let Some(w) = s.rx_waker.take() {
+                            w.wake();
+                        }
+                    }
+                    flag.0.store(true, std::sync::atomic::Ordering::SeqCst);
+                    settle(&mut task, &mut o);
+                }
                 _ => {
                     k += 1;
                     // a pending API call must resolve once the connection has ended
@@ -155,6 +172,10 @@ fn g_case(r: &mut Rng) -> Vec<u64> {
                         c.extend([0, r.pick(&[1u64, i / 2 + 1, t.saturating_sub(1), t, t + 1])]);
                     }
                     c.push(1);
+                }
+                _ if r.chance(1, 4) => {
+                    // the answer arrives together with a later tick
+                    c.extend([3, r.pick(&[i.max(unit), i / 2 + 1, t, t.saturating_sub(1), i + 1])]);
                 }
                 4 => {
                     if r.chance(2, 3) {
